@@ -964,6 +964,22 @@ class Interp:
     def decide(self, v: Value, s: State, node: ast.AST) -> List[Tuple[bool, State]]:
         if v[0] == "not":
             return [(not t, s2) for t, s2 in self.decide(v[1], s, node)]
+        if v[0] in ("and", "or") and len(v) == 2 and isinstance(v[1], tuple) and self.truth(v, s) is None:
+            # a boolean VALUE (e.g. what an inlined helper returned): split it like the same expression written in the test
+            is_and = v[0] == "and"
+            cur = [s]
+            res: List[Tuple[bool, State]] = []
+            for part in v[1]:
+                nxt = []
+                for s1 in cur:
+                    for t, s2 in self.decide(part, s1, node):
+                        if t == is_and:
+                            nxt.append(s2)
+                        else:
+                            res.append((t, s2))
+                cur = nxt
+            res.extend((is_and, s1) for s1 in cur)
+            return res
         known = self.truth(v, s)
         if known is not None:
             return [(known, self.client.on_branch(self, v, known, node, s))]
@@ -1237,8 +1253,11 @@ class Interp:
                 if isinstance(node_v, ast.FormattedValue) and (node_v.conversion != -1 or node_v.format_spec is not None):
                     conv = {114: "r", 115: "s", 97: "a"}.get(node_v.conversion, "")
                     v = ("fmt", v, conv, ast.unparse(node_v.format_spec) if node_v.format_spec else "")
-                parts.append(v)
-            res.append((("fstr", tuple(parts)), s))
+                if v[0] == "const" and isinstance(v[1], str) and parts and parts[-1][0] == "const" and isinstance(parts[-1][1], str):
+                    parts[-1] = ("const", parts[-1][1] + v[1])  # a constant spliced into the text is part of the text
+                else:
+                    parts.append(v)
+            res.append((("fstr", tuple(parts)) if not (len(parts) == 1 and parts[0][0] == "const") else parts[0], s))
         return res
 
     def e_FormattedValue(self, e, st, out):
@@ -1650,3 +1669,80 @@ def _free_names(fn_node: ast.AST) -> Set[str]:
                 nonlocals.update(n.names)
     bound -= nonlocals
     return loads - bound
+
+
+def strparts(v: Value) -> Optional[List[Value]]:
+    """A text built by f-string, `+`, `"...{}...".format(...)` or `"...%s..." % (...)` as the flat list of its pieces
+    (constant strings merged, other pieces as value terms); None if `v` is not such a text. Lets a rule compare WHAT a text is
+    made of without caring which formatting idiom wrote it."""
+    import re as _re
+
+    def go(x: Value) -> Optional[List[Value]]:
+        if x[0] == "const" and isinstance(x[1], (str, bytes)):
+            return [x]
+        if x[0] == "fstr":
+            out: List[Value] = []
+            for part in x[1]:
+                if part[0] == "fmt" and part[2] in ("", "s") and part[3] == "":
+                    part = part[1]
+                sub = go(part) if part[0] in ("const", "fstr") else None
+                out += sub if sub is not None else [part]
+            return out
+        if x[0] == "binop" and x[1] == "Add":
+            a, b = go(x[2]), go(x[3])
+            if a is None and b is None:
+                return None
+            return (a if a is not None else [x[2]]) + (b if b is not None else [x[3]])
+        if x[0] == "call" and x[1][0] == "attr" and x[1][2] == "format" and x[1][1][0] == "const" and isinstance(x[1][1][1], str) and not x[3]:
+            tmpl = x[1][1][1]
+            pieces = _re.split(r"(\{\d*(?:![rsa])?\})", tmpl)
+            args = list(x[2])
+            out = []
+            auto = 0
+            for pc in pieces:
+                m = _re.fullmatch(r"\{(\d*)(![rsa])?\}", pc)
+                if m:
+                    if m.group(2) not in (None, "!s"):
+                        return None
+                    idx = int(m.group(1)) if m.group(1) else auto
+                    auto += 1
+                    if idx >= len(args):
+                        return None
+                    out.append(args[idx])
+                elif pc:
+                    if "{" in pc.replace("{{", "") or "}" in pc.replace("}}", ""):
+                        return None
+                    out.append(("const", pc.replace("{{", "{").replace("}}", "}")))
+            return out
+        if x[0] == "binop" and x[1] == "Mod" and x[2][0] == "const" and isinstance(x[2][1], (str, bytes)):
+            tmpl = x[2][1]
+            is_b = isinstance(tmpl, bytes)
+            t = tmpl.decode("latin-1") if is_b else tmpl
+            args = list(x[3][1]) if x[3][0] == "tuple" else [x[3]]
+            pieces = _re.split(r"(%[sd])", t)
+            out = []
+            i = 0
+            for pc in pieces:
+                if pc in ("%s", "%d"):
+                    if i >= len(args):
+                        return None
+                    out.append(args[i])
+                    i += 1
+                elif pc:
+                    if "%" in pc.replace("%%", ""):
+                        return None
+                    pc = pc.replace("%%", "%")
+                    out.append(("const", pc.encode("latin-1") if is_b else pc))
+            return out
+        return None
+
+    parts = go(v)
+    if parts is None:
+        return None
+    merged: List[Value] = []
+    for x in parts:
+        if x[0] == "const" and isinstance(x[1], (str, bytes)) and merged and merged[-1][0] == "const" and type(merged[-1][1]) is type(x[1]):
+            merged[-1] = ("const", merged[-1][1] + x[1])
+        elif not (x[0] == "const" and x[1] in ("", b"")):
+            merged.append(x)
+    return merged
